@@ -5,8 +5,13 @@ cd /repo || exit 3
 if ! git diff --quiet; then echo "/repo has uncommitted changes"; exit 3; fi
 git apply "$diff" || { echo "patch does not apply"; exit 3; }
 cd /verif
+mkdir -p out/evidence_backup
 for p in "$@"; do
+  # the evidence files in /verif/evidence must come from runs on the unchanged tree: keep them across this run
+  cp evidence/$p.json out/evidence_backup/$p.json 2>/dev/null
   ./check $p --tier $tier > out/logs/mut_$p.log 2>&1; rc=$?
+  cp evidence/$p.json out/logs/mut_$p.evidence.json 2>/dev/null
+  cp out/evidence_backup/$p.json evidence/$p.json 2>/dev/null
   echo "== $p rc=$rc: $(grep -E '^(VIOLATION|OK|UNDECIDED|KNOWN)' out/logs/mut_$p.log | head -3 | tr '\n' ' ')"
   grep -E '^FAILED OBLIGATION|^counterexample' out/logs/mut_$p.log | head -4 | cut -c1-300
 done
